@@ -100,7 +100,12 @@ fn gen_base(r: &mut Rng) -> (Base, &'static str) {
     pdf.set(pages, format!("<< /Type /Pages /Kids [{}] /Count {npages} >>", page_ids.iter().map(|k| format!("{k} 0 R")).collect::<Vec<_>>().join(" ")).into_bytes());
     pdf.set(catalog, format!("<< /Type /Catalog /Pages {pages} 0 R /AcroForm {acro} 0 R >>").into_bytes());
     let compressed = r.chance(1, 3);
-    let bytes = if compressed { pdf.finish_compressed(catalog) } else { pdf.finish(catalog) };
+    let mut bytes = if compressed { pdf.finish_compressed(catalog) } else { pdf.finish(catalog) };
+    // what follows the last %%EOF varies between producers: nothing, LF, CR LF, a blank line, padding
+    if bytes.ends_with(b"\n") {
+        bytes.pop();
+    }
+    bytes.extend_from_slice(*r.pick(&[&b"\n"[..], b"\n", b"", b"\r\n", b"\r", b"\n\n", b" \n"]));
     (Base { bytes, fields, npages }, if compressed { "objstm_xrefstream" } else { "classic" })
 }
 
